@@ -160,6 +160,7 @@ func Load(root string, extraEnv ...string) *World {
 		}
 	}
 	for _, p := range w.Pkgs {
+		recordLenDefs(p.TypesInfo, p.Syntax)
 		for i, f := range p.Syntax {
 			name := p.CompiledGoFiles[i]
 			if rel, err := filepath.Rel(root, name); err == nil {
